@@ -36,7 +36,64 @@ class Hist(p_c01.Part):
                 ops.append(op)
             c["ops"] = ops
             cases.append(c)
+        # scripted life cycles of one cluster and the endpoint set it names: fetched, resolved, then emptied /
+        # replaced / renamed / turned inline / removed, resolved again after every change
+        for _ in range(n // 2):
+            g = sysgen.SysGen(rng)
+            c = g.history(4, istio=False, lds_warm=False)
+            c["ops"] = cls.lifecycle(rng, g)
+            cases.append(c)
         return cases
+
+    @staticmethod
+    def lifecycle(rng, g):
+        from .sysgen import C, L, Some, endpoints
+        ver = [100]
+
+        def resp(rt, resources):
+            ver[0] += 1
+            return {"op": "resp", "rt": rt, "version": "v%d" % ver[0], "nonce": "n%d" % ver[0], "resources": [C("RGood", r) for r in resources]}
+
+        def cl(name, svc, inline=None, outlier=None):
+            return C("Build_cluster_pb", name, Some(3), 0, None if svc is None else Some(svc),
+                     None if outlier is None else Some(C("Build_outlier_pb", Some(outlier[0]), Some(outlier[1]))),
+                     None if inline is None else Some(inline))
+
+        cname = rng.choice(g.NAMES["cds"])
+        other = rng.choice([x for x in g.NAMES["cds"] if x != cname])
+        svc = rng.choice([None, "", "svc-%s" % cname, "shared-svc"])
+        ep = svc if svc else cname
+        st = rng.randint(1, 500)
+        res = {"op": "resolve", "name": cname}
+        ops = [res, resp("cds", [cl(cname, svc)] + ([cl(other, "shared-svc")] if rng.random() < 0.5 else [])), res,
+               resp("eds", [endpoints(ep, st, nloc=rng.choice([1, 2]), nep=rng.choice([1, 2]))]), res]
+        for _ in range(rng.choice([1, 2, 3])):
+            k = rng.choice(["emptied", "empty-localities", "replaced", "renamed", "inline", "inline-empty", "removed", "other-eds", "readded"])
+            st += 1
+            if k == "emptied":
+                ops.append(resp("eds", [endpoints(ep, st, nloc=0)]))
+            elif k == "empty-localities":
+                ops.append(resp("eds", [endpoints(ep, st, nloc=rng.choice([1, 2]), nep=0)]))
+            elif k == "replaced":
+                ops.append(resp("eds", [endpoints(ep, st, nloc=rng.choice([1, 2]), nep=rng.choice([1, 2]))]))
+            elif k == "renamed":
+                svc = "svc2-%s" % cname
+                ep = svc
+                ops += [resp("cds", [cl(cname, svc)]), res, resp("eds", [endpoints(ep, st, nloc=1, nep=rng.choice([1, 2]))])]
+            elif k == "inline":
+                ops.append(resp("cds", [cl(cname, svc, inline=endpoints(cname, st, nloc=rng.choice([1, 2]), nep=rng.choice([1, 2])))]))
+            elif k == "inline-empty":
+                ops.append(resp("cds", [cl(cname, svc, inline=endpoints(cname, st, nloc=rng.choice([0, 1]), nep=0))]))
+            elif k == "removed":
+                ops.append(resp("cds", [cl(other, None)]))
+            elif k == "other-eds":
+                ops.append(resp("eds", [endpoints("unrelated", st, nloc=1, nep=1)]))
+            else:
+                ops += [resp("cds", [cl(other, None)]), res, resp("cds", [cl(cname, svc)])]
+            ops.append(res)
+            if rng.random() < 0.3:
+                ops.append({"op": "resolve", "name": other})
+        return ops
 
     @staticmethod
     def PROJECT(v, c, o):
@@ -61,7 +118,7 @@ class Pure(p_c15.Resolve):
     @classmethod
     def model_view(cls, c, o, tier):
         from . import core
-        return core.coq_show(PROP, tier, cls.IMPORTS, "let c := %s in resolve (rs_cluster c) (eds_fun (rs_eds c))" % cls.to_gallina(c, o))[:2000]
+        return core.coq_show(PROP, tier, cls.IMPORTS, "let c := %s in (resolve (rs_cluster c) (eds_fun (rs_eds c)), \"expected from the messages sent:\"%%string, resolve (src_cluster (%s)) (src_eds (%s)))" % (cls.to_gallina_case(c, o), cls.to_gallina(c, o), cls.to_gallina(c, o)))[:2000]
 
 
 PARTS = [Hist, Pure]
